@@ -129,7 +129,7 @@ func exprOf(v *serVal, opIndex map[int]int) string {
 
 func checkC05(c *checkCtx) {
 	c.level = "translation_validation"
-	c.cov.Rule = "expression grammars e = e OP e @left/@right(n) | ... | NUM | '(' e ')' with 1-3 levels, 1-4 operators (several per level, uniform associativity per level); the compiled parser's tree for operator sequences (all sequences up to 3 operators over the operator set, sampled longer ones, with parenthesised sub-expressions) is compared with the Gallina precedence-climbing reference Gen/PrecClimb.climb, which is proved to return THE unique well-grouped tree (climb_characterised, well_grouped_unique); non-trivial = the sequence has >= 2 operators"
+	c.cov.Rule = "expression grammars e = e OP e @left/@right(n) | ... | NUM | '(' e ')' with 1-3 levels, 1-4 operators (several per level, uniform associativity per level); the compiled parser's tree for operator sequences (all sequences up to 3 operators over the operator set, sampled longer ones, with parenthesised sub-expressions) is compared with the Gallina precedence-climbing reference Gen/PrecClimb.climb, which is proved to return THE unique well-grouped tree (climb_characterised, well_grouped_unique); also grammars with TWO expression rules sharing the operator tokens under different level numbers (levels are local to a rule); non-trivial = the sequence has >= 2 operators"
 	c.assume = []string{
 		"reference: Gen/PrecClimb.v, characterised by well_grouped (C05_climb_characterised) — the property's own wording made precise",
 		"the local rule of resolveConflicts is proved to agree with the documented choice except for equal level + @right when the shift action lists more than one production entry (known finding)",
@@ -140,6 +140,7 @@ func checkC05(c *checkCtx) {
 		nG = 120
 	}
 	checkUnqualifiedUnaffected(c, nG)
+	checkTwoRuleLevels(c, nG/2)
 	ws := newWorkspace("c05")
 	defer ws.close()
 	type meta struct {
@@ -408,6 +409,208 @@ func checkUnqualifiedUnaffected(c *checkCtx, n int) {
 			}
 			c.addFinding(finding{Signature: "unqualified-alternative-affected", Desc: what,
 				Replay: map[string]any{"spec": s.loxText, "lox_has_conflicts": s.dump.HasConflicts, "reference_has_conflicts": ref.conflicts}})
+		}
+	}
+}
+
+// checkTwoRuleLevels: precedence levels belong to the rule that declares them.  Two expression rules e and f use
+// the SAME operator tokens with different level numbers (s = e SEP f); each side of SEP must be grouped by the
+// levels of its own rule.  All @left, so the known @right finding does not interfere.
+func checkTwoRuleLevels(c *checkCtx, n int) {
+	ws := newWorkspace("c05t")
+	defer ws.close()
+	type meta struct{ lev [2][]int }
+	for i := 0; i < n; i++ {
+		nops := 2 + c.rng.intn(2)
+		g := &gSpec{}
+		for k := 0; k < nops; k++ {
+			g.tokens = append(g.tokens, fmt.Sprintf("OP%d", k))
+		}
+		g.tokens = append(g.tokens, "NUM", "LP", "RP", "SEP")
+		m := &meta{}
+		// e: levels ascending with the operator number; f: another numbering of the same tokens
+		perm := c.rng.perm(nops)
+		base := []int{1, 1 + c.rng.intn(4)}
+		rules := []gRule{{name: "s", prods: []gProd{{terms: []gTerm{{kind: 1, name: "e"}, {kind: 0, name: "SEP"}, {kind: 1, name: "f"}}}}}}
+		for side, name := range []string{"e", "f"} {
+			r := gRule{name: name}
+			for k := 0; k < nops; k++ {
+				lv := base[side] + k
+				if side == 1 {
+					lv = base[side] + perm[k]
+				}
+				m.lev[side] = append(m.lev[side], lv)
+				r.prods = append(r.prods, gProd{terms: []gTerm{{kind: 1, name: name}, {kind: 0, name: g.tokens[k]}, {kind: 1, name: name}}, qual: fmt.Sprintf("@left(%d)", lv)})
+			}
+			r.prods = append(r.prods, gProd{terms: []gTerm{{kind: 0, name: "NUM"}}})
+			r.prods = append(r.prods, gProd{terms: []gTerm{{kind: 0, name: "LP"}, {kind: 1, name: name}, {kind: 0, name: "RP"}}})
+			rules = append(rules, r)
+		}
+		if c.rng.chance(1, 2) {
+			rules[1], rules[2] = rules[2], rules[1] // declaration order of the two operator rules
+		}
+		g.rules = rules
+		s := ws.add(g.text())
+		s.tag = m
+	}
+	if err := ws.dumpAll(); err != nil {
+		c.addFinding(finding{Signature: "hook-failed", Desc: err.Error(), NoInput: true, Theorem: "loxverif dump", Replay: map[string]any{}})
+		return
+	}
+	for _, s := range ws.specs {
+		d := s.dump
+		if !d.OK || d.HasConflicts {
+			c.addFinding(finding{Signature: "qualified-expression-grammar-refused",
+				Desc:   "lox refused a grammar with two expression rules whose binary alternatives all carry qualifiers: " + lastLines(d.Diag, 2),
+				Replay: map[string]any{"spec": s.loxText, "has_conflicts": d.HasConflicts}})
+			continue
+		}
+		s.goText = genUserGo(d, userOpts{})
+	}
+	ws.genAll()
+	ws.buildAll()
+	type job struct {
+		s      *wsSpec
+		m      *meta
+		inputs [][]int
+		ops    [][2][]int
+	}
+	var jobs []*job
+	var reqs []*req
+	for _, s := range ws.specs {
+		if s.goText == "" || s.loxCode != 0 || !s.built {
+			if s.goText != "" {
+				c.addFinding(finding{Signature: "spec-not-generated", Desc: lastLines(s.loxOut+s.buildErr, 3), Replay: map[string]any{"spec": s.loxText}})
+			}
+			continue
+		}
+		m := s.tag.(*meta)
+		j := &job{s: s, m: m}
+		term := map[string]int{}
+		for _, t := range s.dump.Terminals {
+			term[t.Name] = t.Index
+		}
+		nops := len(m.lev[0])
+		var seqs [][]int
+		var rec func(prefix []int, n int)
+		rec = func(prefix []int, n int) {
+			seqs = append(seqs, append([]int{}, prefix...))
+			if n == 0 {
+				return
+			}
+			for op := 0; op < nops; op++ {
+				rec(append(prefix, op), n-1)
+			}
+		}
+		rec(nil, 2)
+		for k := 0; k < 12; k++ {
+			l := 3 + c.rng.intn(3)
+			ops := make([]int, l)
+			for i := range ops {
+				ops[i] = c.rng.intn(nops)
+			}
+			seqs = append(seqs, ops)
+		}
+		for k := 0; k < 40; k++ {
+			pair := [2][]int{pick(c.rng, seqs), pick(c.rng, seqs)}
+			if len(pair[0])+len(pair[1]) < 2 {
+				continue
+			}
+			var toks []int
+			for side := 0; side < 2; side++ {
+				if side == 1 {
+					toks = append(toks, term["SEP"])
+				}
+				toks = append(toks, term["NUM"])
+				for _, op := range pair[side] {
+					toks = append(toks, term[fmt.Sprintf("OP%d", op)], term["NUM"])
+				}
+			}
+			j.inputs = append(j.inputs, toks)
+			j.ops = append(j.ops, pair)
+			off := 0
+			for side := 0; side < 2; side++ {
+				q := newReq("climb").i(nops)
+				for i := 0; i < nops; i++ {
+					q.i(m.lev[side][i]).b(false)
+				}
+				q.i(2*len(pair[side]) + 1)
+				pos := off
+				q.i(0).i(pos)
+				pos++
+				for _, op := range pair[side] {
+					q.i(1).i(op)
+					pos++
+					q.i(0).i(pos)
+					pos++
+				}
+				off = pos + 1 // SEP
+				reqs = append(reqs, q)
+			}
+		}
+		jobs = append(jobs, j)
+	}
+	ans, err := callModel(reqs)
+	if err != nil {
+		c.addFinding(finding{Signature: "model-failed", Desc: err.Error(), NoInput: true, Theorem: "loxmodel", Replay: map[string]any{}})
+		return
+	}
+	parallel(len(jobs), func(i int) {
+		j := jobs[i]
+		var lines []string
+		for _, w := range j.inputs {
+			var sb strings.Builder
+			sb.WriteString("P")
+			for _, t := range w {
+				fmt.Fprintf(&sb, " %d", t)
+			}
+			lines = append(lines, sb.String())
+		}
+		j.s.loxOut = strings.Join(j.s.runInputs(lines), "\n")
+	})
+	p := 0
+	for _, j := range jobs {
+		out := strings.Split(j.s.loxOut, "\n")
+		opIndex := map[int]int{}
+		for _, t := range j.s.dump.Terminals {
+			if strings.HasPrefix(t.Name, "OP") {
+				n, _ := strconv.Atoi(t.Name[2:])
+				opIndex[t.Index] = n
+			}
+		}
+		for k := range j.inputs {
+			var want [2]string
+			for side := 0; side < 2; side++ {
+				a := ans[p]
+				p++
+				a.int()
+				want[side] = a.word()
+			}
+			got := [2]string{"none", "none"}
+			if k < len(out) {
+				f := strings.Split(out[k], "\t")
+				if f[0] == "ACC" && len(f) >= 3 {
+					evs := strings.Fields(f[2])
+					if len(evs) > 0 {
+						last := evs[len(evs)-1]
+						if i := strings.Index(last, "="); i >= 0 {
+							sp := &serParser{s: last[i+1:]}
+							root := sp.value()
+							if root != nil && len(root.children) == 3 {
+								got[0] = exprOf(root.children[0], opIndex)
+								got[1] = exprOf(root.children[2], opIndex)
+							}
+						}
+					}
+				}
+			}
+			c.note(j.s.name+"two"+fmt.Sprint(j.inputs[k]), true)
+			if got != want {
+				c.addFinding(finding{Signature: "operator-grouping-differs-two-rules",
+					Desc: fmt.Sprintf("two expression rules share their operator tokens with different levels; on %v the generated parser builds %v, precedence climbing with each rule's own levels gives %v",
+						tokenNames(j.s.dump, j.inputs[k]), got, want),
+					Replay: map[string]any{"spec": j.s.loxText, "tokens": j.inputs[k], "token_names": tokenNames(j.s.dump, j.inputs[k]), "parser_trees": got, "reference_trees": want}})
+			}
 		}
 	}
 }
